@@ -99,6 +99,7 @@ def one_instance(ctx, r, big=0, prepared=None, legacy=False, only=None, tail=Non
             finally:
                 c.close()
         ctx.sample({"command": label, "argv": argv, "kill_points": n, "program": strace.summarize(steps)}, cap=8)
+        return "swept" if (not only or label in only) else None
     finally:
         base.close()
 
@@ -116,6 +117,10 @@ def run(ctx):
         one_instance(ctx, r.fork(), legacy=True, only=(("compact",), ("plan",), None)[i % 3])
     for i in range(4 if ctx.quick else 40):
         one_instance(ctx, r.fork(), tail=("unterminated", "torn")[i % 2])
+    # a multi-event append larger than 64 KiB (a body of 80–150 KB together with claim and state): however the writer buffers, a kill leaves all or nothing
+    for _ in range(8):          # (drawn again when the store at hand has no task the command is valid for)
+        if one_instance(ctx, r.fork(), only=("set{big-body,claim,state}",)) == "swept" or ctx.violations:
+            break
     # rewrites of a log of several hundred KB: the temporary file is written in many write(2) calls, a kill between two of them leaves half a file behind
     for i in range(2 if ctx.quick else 12):
         one_instance(ctx, r.fork(), big=130, only=(("plan",), ("compact",))[i % 2])
